@@ -244,6 +244,12 @@ func c16MapEquality(c *Check, id string, eq *ssa.Function, f *types.Var, isA, is
 				lks = append(lks, l)
 			}
 		})
+		// Metadata.Get(key) is a lookup that cannot tell a missing key from an empty value
+		for _, g := range CallsTo(eq, nMetaGet) {
+			if other(Receiver(g)) && AllOrigins(Arg(g, 0), isKey) {
+				c.Report(false, id, "MAP-EQ/comma-ok", eq, g.Pos(), k, "the other map is read with Get(key): a missing key reads as \"\" and is indistinguishable from an empty value (two maps of equal size with different keys and empty values compare equal)")
+			}
+		}
 		if !c.Floor(id, "lookup of the ranged key in the other message's "+f.Name(), len(lks), 1) {
 			continue
 		}
@@ -298,7 +304,8 @@ func c16Copy(c *Check, id string) {
 	}
 	recv := cp.Params[0]
 	news := Callers([]*ssa.Function{cp}, nm)
-	if !c.Floor(id, "NewMessage call in Copy", len(news), 1) {
+	if len(news) == 0 {
+		c16CopyLiteral(c, id, cp, T)
 		return
 	}
 	n := news[0]
@@ -392,6 +399,176 @@ func c16Copy(c *Check, id string) {
 		}
 	})
 	c.Floor(id, "write of (k, v) into the copy's metadata inside the range", nset, 1)
+}
+
+// c16CopyLiteral decides Copy when it builds the new message itself (a composite
+// literal instead of a NewMessage call): the same obligations, on the stores
+// to the new value's fields.
+func c16CopyLiteral(c *Check, id string, cp *ssa.Function, T *types.Named) {
+	recv := cp.Params[0]
+	var uuidF, payF, metaF *types.Var
+	for _, f := range exportedDataFields(T) {
+		switch f.Type().Underlying().(type) {
+		case *types.Basic:
+			uuidF = f
+		case *types.Slice:
+			payF = f
+		case *types.Map:
+			metaF = f
+		}
+	}
+	if !c.Floor(id, "Message's UUID / payload / metadata fields", b2i(uuidF != nil)+b2i(payF != nil)+b2i(metaF != nil), 3) {
+		return
+	}
+	var alloc *ssa.Alloc
+	nAlloc := 0
+	AllInstrs(cp, func(in ssa.Instruction) {
+		if a, ok := in.(*ssa.Alloc); ok && NamedOf(a.Type()) == T {
+			alloc = a
+			nAlloc++
+		}
+	})
+	if !c.Floor(id, "the new message in Copy (NewMessage call or one composite literal)", b2i(nAlloc == 1), 1) {
+		return
+	}
+	for ret, vals := range ReturnValues(cp, 0) {
+		c.Report(len(vals) == 1 && vals[0] == ssa.Value(alloc), id, "COPY-RESULT", cp, ret.Pos(), "return", "the new message is returned")
+	}
+	storesTo := func(f *types.Var) []*ssa.Store {
+		var out []*ssa.Store
+		for _, st := range FieldStores(cp, f) {
+			if _, base := FieldOf(st.Addr); base == ssa.Value(alloc) {
+				out = append(out, st)
+			}
+		}
+		return out
+	}
+	okUP := true
+	for _, f := range []*types.Var{uuidF, payF} {
+		sts := storesTo(f)
+		if len(sts) != 1 || !fieldLoadFrom(f, recv)(sts[0].Val) {
+			okUP = false
+		}
+		for _, ret := range Returns(cp) {
+			if len(sts) == 1 && !Dominates(cp, sts[0], ret) {
+				okUP = false
+			}
+		}
+	}
+	c.Report(okUP, id, "COPY-COVER/uuid-payload", cp, alloc.Pos(), "Message{...}", "the copy is built from the source's UUID and payload")
+	// metadata: at every return the copy's map is one made in Copy
+	isFresh := func(v ssa.Value) bool {
+		return AllOrigins(v, func(o ssa.Value) bool { _, ok := o.(*ssa.MakeMap); return ok })
+	}
+	var fresh []ssa.Instruction
+	var freshMaps []ssa.Value
+	for _, st := range storesTo(metaF) {
+		if isFresh(st.Val) {
+			fresh = append(fresh, st)
+			freshMaps = append(freshMaps, Origins(st.Val)...)
+		}
+	}
+	cutF := NewCut().AddInstrs(fresh...)
+	okFresh := len(fresh) > 0
+	var wit []string
+	for _, ret := range Returns(cp) {
+		if ReachEntry(cp, cutF)[ret] {
+			okFresh = false
+			wit = append(wit, "a path reaches the return at "+c.P.Pos(ret.Pos())+" without giving the copy a map made in Copy")
+		}
+	}
+	for _, st := range storesTo(metaF) {
+		if !isFresh(st.Val) {
+			for _, ret := range Returns(cp) {
+				if ReachAfter(st, cutF)[ret] {
+					okFresh = false
+					wit = append(wit, "the map stored at "+c.P.Pos(st.Pos())+" (not made in Copy) is still the copy's metadata at the return at "+c.P.Pos(ret.Pos()))
+				}
+			}
+		}
+	}
+	c.Report(okFresh, id, "COPY-FRESH", cp, alloc.Pos(), "metadata", "on every path the copy's metadata is a map made in Copy (never the source's map, never nil)", wit...)
+	// the private state is new: channels made here, nothing taken from the source, no context
+	st := T.Underlying().(*types.Struct)
+	okPriv := true
+	nCh := 0
+	for i := 0; i < st.NumFields(); i++ {
+		f := st.Field(i)
+		if f.Exported() {
+			continue
+		}
+		for _, s := range storesTo(f) {
+			if _, isCh := f.Type().Underlying().(*types.Chan); isCh {
+				if _, mk := firstOrigin(s.Val).(*ssa.MakeChan); mk {
+					nCh++
+					continue
+				}
+			}
+			okPriv = false
+		}
+	}
+	c.Report(okPriv && nCh >= 2, id, "COPY-UNSETTLED", cp, alloc.Pos(), "private fields", "the copy gets its own, new settlement channels and nothing else of the source's private state (not its settlement, not its context)")
+	// every ranged entry is written into the fresh map
+	var rg *ssa.Range
+	AllInstrs(cp, func(in ssa.Instruction) {
+		if r, ok := in.(*ssa.Range); ok && fieldLoadFrom(metaF, recv)(r.X) {
+			rg = r
+		}
+	})
+	if !c.Floor(id, "range over the source's metadata in Copy", b2i(rg != nil), 1) {
+		return
+	}
+	var next *ssa.Next
+	for _, ref := range *rg.Referrers() {
+		if x, ok := ref.(*ssa.Next); ok {
+			next = x
+		}
+	}
+	isCopyMap := func(v ssa.Value) bool {
+		return AllOrigins(v, func(o ssa.Value) bool {
+			for _, m := range freshMaps {
+				if o == m {
+					return true
+				}
+			}
+			if u, ok := o.(*ssa.UnOp); ok {
+				f, base := FieldOf(u.X)
+				return f == metaF && base == ssa.Value(alloc)
+			}
+			return false
+		})
+	}
+	nset := 0
+	fromNext := func(i int) func(ssa.Value) bool {
+		return func(v ssa.Value) bool { e, ok := v.(*ssa.Extract); return ok && e.Tuple == ssa.Value(next) && e.Index == i }
+	}
+	AllInstrs(cp, func(in ssa.Instruction) {
+		switch x := in.(type) {
+		case *ssa.MapUpdate:
+			if AllOrigins(x.Key, fromNext(1)) && AllOrigins(x.Value, fromNext(2)) && isCopyMap(x.Map) {
+				nset++
+				c.Report(!ReachWithout(next, next, in), id, "COPY-COVER/metadata", cp, in.Pos(), "metadata[k] = v", "every metadata entry of the source is written, key and value, into the copy's own map")
+			}
+		case *ssa.Call:
+			if IsCallTo(x, nMetaSet) && AllOrigins(Arg(x, 0), fromNext(1)) && AllOrigins(Arg(x, 1), fromNext(2)) && isCopyMap(Receiver(x)) {
+				nset++
+				c.Report(!ReachWithout(next, next, in), id, "COPY-COVER/metadata", cp, in.Pos(), "Metadata.Set", "every metadata entry of the source is written, key and value, into the copy's own map")
+			}
+		}
+	})
+	c.Floor(id, "write of (k, v) into the copy's metadata inside the range", nset, 1)
+	// the loop runs whenever the source has entries: it is skipped only on a `len(source metadata) == 0` edge
+	lz, _ := LenZeroEdges(cp, fieldLoadFrom(metaF, recv))
+	okLoop := Dominates(cp, rg, Returns(cp)[0])
+	if !okLoop {
+		okLoop = true
+		for _, ret := range Returns(cp) {
+			if ReachEntry(cp, NewCut().AddInstrs(rg).AddEdges(lz...))[ret] {
+				okLoop = false
+			}
+		}
+	}
+	c.Report(okLoop, id, "COPY-COVER/always", cp, rg.Pos(), "range", "the copying loop is skipped only when the source has no metadata")
 }
 
 // ---------------------------------------------------------------------------
